@@ -3,7 +3,7 @@
     [enum r] is start, start+step, ... up to the last value not past end
     (Spec/SpecRanges.v); [wf r]: non-zero step whose sign agrees with the
     direction.  No bound on magnitudes. *)
-From GFS Require Import Base Dec Ranges SpecRanges SpecRange RangeBasics AppendProofs.
+From GFS Require Import Base Dec Ranges FrameSet SpecRanges SpecRange RangeBasics AppendProofs StringProofs.
 Local Open Scope Z_scope.
 
 Theorem enum_is_the_walk : forall r v, wf r -> (In v (enum r) <-> on_grid r v).
@@ -92,13 +92,13 @@ Proof.
 Qed.
 Print Assumptions ranges_views.
 
-(** STILL MISSING (full statement, not yet proved):
-      rs_string_reparses : WF bl -> bl <> [] ->
-        exists f, new_frameset (rs_string itoa bl) = Ok f /\ fs_frames f = enum_all bl
-    i.e. "the printed form of any such container parses back as a frame range to
-    the same values".  Until it is proved this clause is covered by the
-    correspondence/oracle run only (every printed form is re-parsed by the
-    implementation and compared). *)
+(** the printed form of any such container parses back as a frame range to the
+    same values ([fits_block]: the numbers printed fit a Go int, as they do for
+    every container the implementation can hold) *)
+Theorem printed_form_reparses : forall bl, WF bl -> bl <> [] -> Forall fits_block bl ->
+  exists f, new_frameset (rs_string itoa bl) = Ok f /\ fs_frames f = enum_all bl.
+Proof. exact rs_string_reparses. Qed.
+Print Assumptions printed_form_reparses.
 
 (** non-vacuity *)
 Example wf_example : wf (new_range 10 1 (-3)) /\ enum (new_range 10 1 (-3)) = [10; 7; 4; 1].
